@@ -23,6 +23,8 @@ pub struct Report {
     pub evals: BTreeMap<&'static str, u64>,
     pub samples: Vec<String>,
     pub max_fails: usize,
+    /// C17 campaign: compare every reached state with its 64 x 12 single-square neighbours
+    pub c17_neighbours: bool,
 }
 
 impl Report {
@@ -35,6 +37,7 @@ impl Report {
             evals: BTreeMap::new(),
             samples: vec![],
             max_fails: 20,
+            c17_neighbours: false,
         }
     }
     pub fn count(&mut self, k: &str) {
@@ -484,6 +487,11 @@ impl Game {
         }
         if self.applied > 0 {
             rep.nontriv("C08", skey ^ (self.turns as u64).wrapping_mul(0x9E37));
+        }
+
+        // ---- C17 on reached states: no single-square neighbour built from scratch hashes alike ----
+        if rep.c17_neighbours {
+            crate::feat::reached_neighbours(self, &ab, rep);
         }
 
         // ---- C14 ----------------------------------------------------------------------------
